@@ -54,8 +54,12 @@ package supervisor
 //@   ensures [whole-group-sigkill] delta(SignalSent) <= 1 && delta(KillSignalSent) == delta(SignalSent) && (delta(SignalSent) == 1 && delta(DeadlineNotPast) == 1 ==> delta(GroupLookup) == 1 && (delta(GroupFound) == 1 && lastret(GroupLookup) >= 0 ==> lastarg(SignalSent, 0) == 0 - lastret(GroupLookup)) && (delta(GroupFound) == 0 ==> lastarg(SignalSent, 0) == 0 - p.pid))
 //@   ensures [outliving-the-deadline-is-an-error] delta(KillDeadlineHit) == 1 ==> r0 != nil
 
+// C19 ("for many processes at once", "Terminate ... without waiting"): Kill may wait for seconds; it does so with the process
+// map unlocked, or every other Exec, Terminate and Kill would wait behind it
+//@ event ProcessMapUnlocked = call sync.(*Mutex).Unlock
 //@ func (*LocalSupervisor).Kill
 //@   requires req != nil
+//@   ensures [C19: the-process-map-is-unlocked-before-kill-waits] delta(KillInner) == 1 ==> delta(ProcessMapUnlocked) == 1 && last(ProcessMapUnlocked) < first(KillInner)
 //@   ensures [other-domains-are-a-no-op] req.Domain != "runtime" ==> r0 == nil && delta(KillInner) == 0 && delta(SignalSent) == 0
 //@   ensures [unknown-name-is-an-error] req.Domain == "runtime" && !old(has(s.processMap, req.Name)) ==> r0 != nil && typeis(r0, *model.SupervisorError) && r0.(*model.SupervisorError).Kind == model.NoSuchEntity && delta(KillInner) == 0 && delta(SignalSent) == 0
 //@   ensures [known-name-is-killed] req.Domain == "runtime" && old(has(s.processMap, req.Name)) ==> delta(KillInner) == 1 && lastarg(KillInner, 1) == req.Name
